@@ -23,16 +23,29 @@ theorem addAfterLookup_uses_afterCond (ms : List (String × Mapping)) (idx : Nat
     (fi : Nat) (ln : String) (h1 : firstInstance ms l.table = some fi)
     (h2 : lastStepName ms l.table = some ln) (hpc : l.table ≠ afterSkipTarget) :
     addAfterLookup ms idx l =
-      if afterCond fi idx then (if l.after.isSome then .ok l else .ok { l with after := some ln })
-      else .ok l := by
+      if afterCond fi idx then (if l.after.isSome then l else { l with after := some ln })
+      else l := by
   have hb : (l.table == "PersonContact") = false := by simpa [afterSkipTarget] using hpc
   simp [addAfterLookup, hb, h1, h2, afterCond]
 
 theorem afterSkipTarget_eq : afterSkipTarget = "PersonContact" := rfl
 
 theorem addAfterLookup_skips (ms : List (String × Mapping)) (idx : Nat) (l : Lookup)
-    (h : l.table = afterSkipTarget) : addAfterLookup ms idx l = .ok l := by
+    (h : l.table = afterSkipTarget) : addAfterLookup ms idx l = l := by
   simp [addAfterLookup, h, afterSkipTarget]
+
+/-- `indexed_by_sobject.get(target_table)` / `if target_mapping_index is None: continue` (fix 7f47b5f):
+    a lookup whose target object no entry loads is left untouched -/
+theorem addAfterLookup_unloaded_target (ms : List (String × Mapping)) (idx : Nat) (l : Lookup)
+    (h : ∀ p ∈ ms, p.2.sfObject ≠ l.table) : addAfterLookup ms idx l = l := by
+  have h1 : firstInstance ms l.table = none := by
+    unfold firstInstance
+    rw [List.findIdx?_eq_none_iff]
+    intro p hp
+    simpa using h p hp
+  unfold addAfterLookup
+  rw [h1]
+  split <;> rfl
 
 theorem mappingIndexFields_eq : mappingIndexFields = ["first_instance", "last_step_name"] := rfl
 
@@ -43,7 +56,9 @@ theorem addAfterSource_eq : addAfterSource =
      "        target_table = lookup['table']",
      "        if target_table == 'PersonContact':",
      "            continue",
-     "        target_mapping_index = indexed_by_sobject[target_table]",
+     "        target_mapping_index = indexed_by_sobject.get(target_table)",
+     "        if target_mapping_index is None:",
+     "            continue",
      "        if target_mapping_index.first_instance >= idx:",
      "            if not lookup.get('after'):",
      "                lookup['after'] = target_mapping_index.last_step_name"] := rfl
